@@ -91,6 +91,8 @@ fn manage_worker(plan: WorkerPlan, shared: Arc<Mutex<Collected>>) {
         if let Some(r) = resume_after {
             cmd.args(["--resume-after", &r.to_string()]);
         }
+        // a dying worker is reported through its journal, not through a backtrace on stderr
+        cmd.env("RUST_BACKTRACE", "0");
         cmd.stdout(Stdio::piped()).stderr(Stdio::inherit()).stdin(Stdio::null());
         let mut child = match cmd.spawn() {
             Ok(c) => c,
